@@ -967,6 +967,43 @@ func (r *rw) call(e *ast.CallExpr) ast.Expr {
 		e.Args[0] = m
 		e.Args[1] = r.expr(e.Args[1], cRead)
 		return e
+	case "append":
+		// append writes into the spare capacity of its first argument's array,
+		// memory that every other slice of that array shares: recorded (and a
+		// pre-emption point) through the generic helpers of simrt
+		if r.instr && len(e.Args) >= 2 {
+			site := r.site(e)
+			variadic := e.Ellipsis.IsValid()
+			var lastIsString bool
+			if variadic {
+				if b, ok := r.typeOf(e.Args[len(e.Args)-1]).Underlying().(*types.Basic); ok && b.Info()&types.IsString != 0 {
+					lastIsString = true
+				}
+			}
+			r.exprs(e.Args, cRead)
+			args := append([]ast.Expr{site}, e.Args...)
+			switch {
+			case variadic && lastIsString:
+				args[len(args)-1] = call(ast.NewIdent("string"), args[len(args)-1])
+				return call(rt("AppendString"), args...)
+			case variadic:
+				return call(rt("AppendSlice"), args...)
+			}
+			return call(rt("Append"), args...)
+		}
+	case "copy":
+		if r.instr && len(e.Args) == 2 {
+			site := r.site(e)
+			srcIsString := false
+			if b, ok := r.typeOf(e.Args[1]).Underlying().(*types.Basic); ok && b.Info()&types.IsString != 0 {
+				srcIsString = true
+			}
+			r.exprs(e.Args, cRead)
+			if srcIsString {
+				return call(rt("CopyString"), site, e.Args[0], call(ast.NewIdent("string"), e.Args[1]))
+			}
+			return call(rt("Copy"), site, e.Args[0], e.Args[1])
+		}
 	case "clear":
 		if isMap(r.typeOf(e.Args[0])) {
 			m := r.expr(e.Args[0], cRead)
